@@ -105,7 +105,15 @@ def propagated_tol(probe, m, cls):
             # worst converged matching (slow wall, xtol=1e-6) sat at 21x the linearly
             # propagated spread; K=100 leaves a factor ~5 and is still >3 decades below
             # the smallest genuine failure seen (1e-2 at xtol=1e-10).
-            return K_HYBR * max(atol * abs(x) * (rng_ / math.pi) / (1 + x * x), 1e-13 * T)
+            # Slow walls: both equations are O(v_w^2), so their conditioning in T grows like
+            # 1/v_w^2 (a backward-stable solve would only guarantee dT/T ~ xtol/v_w^2).
+            # Thorough tier, unchanged tree: converged matchings at v_w = 1.4e-3 sit at 207x
+            # the hybr step bound (energy-flux mismatch 8e-8 at xtol = 1e-10).  K grows like
+            # 0.01/v_w below v_w = 0.01 -- at 1e-3 that is 1e3 xtol, still 2.5 decades
+            # inside the backward-error bound and 4 decades below the failures of the
+            # known slow-wall findings (1e-2 .. O(1)).
+            k = K_HYBR * max(1.0, 0.01 / max(m["vw"], 1e-6))
+            return k * max(atol * abs(x) * (rng_ / math.pi) / (1 + x * x), 1e-13 * T)
 
         dp, dm = dT(Tp), dT(Tm)
         # only differences between evaluations that are consistent among themselves enter
